@@ -626,7 +626,10 @@ func roundTrip(r *eng.Run, c hsClient, s hsServer, rseed int64, segS, segC int) 
 	rand.Seed(rseed)
 	t.Client = runClient(r, c, pipeFor(r, t.Server.Written, segC))
 	if !bytes.Equal(t.Client.Written, t.Request) {
-		r.Internalf("the dialer wrote a different request on its second run (%d vs %d bytes): nonce not reseeded?", len(t.Client.Written), len(t.Request))
+		// Same configuration, same nonce source: on the unchanged tree the two
+		// requests are byte-identical in every run; a difference means the
+		// request depends on what earlier handshakes left behind.
+		r.Failf("request_differs_between_identical_dials", "the dialer wrote a different request on its second run with the same configuration and nonce (%d vs %d bytes)%s\n  %s", len(t.Client.Written), len(t.Request), firstDiff(t.Client.Written, t.Request), c)
 	}
 	return t
 }
